@@ -11,8 +11,8 @@ from ..oracles import CONFIGS, METRICS, relevant_scores, ulp_step
 
 
 @st.composite
-def _cases(draw):
-    s = draw(gen.score_sets(min_pos=1, min_neg=1, max_size=9,
+def _cases(draw, max_size=9):
+    s = draw(gen.score_sets(min_pos=1, min_neg=1, max_size=max_size,
                             modes=("grid", "grid", "dyadic", "distinct", "distinct", "int"),
                             easy=False))
     ez = st.one_of(st.just(0), st.integers(1, 4), st.integers(5, 40))
@@ -105,6 +105,6 @@ PROP = Prop(
           "target on the whole grid j/T plus random ones whose materialised threshold lies within "
           "[min,max] of the relevant scored samples gives the same threshold (1e-9*range). "
           "Non-trivial = k+m>0 and at least one eligible target."),
-    clauses=[Clause("virtual_vs_materialised", check, strategy=_cases(), quick=300, thorough=1500,
+    clauses=[Clause("virtual_vs_materialised", check, strategy=lambda tier: _cases(9 if tier == "quick" else 25), quick=300, thorough=12000,
                     quick_shards=4, min_nontrivial=150, doc="differential: virtual vs materialised")],
 )
